@@ -21,9 +21,11 @@ enum {
     OP_QUERY,
     OP_RESET_AFTER,
     OP_RESET_NOW,
+    OP_REARM,
 };
 static const char* const OPN[] = {"activate", "trigger_until", "trigger_once", "wait", "wait_for",
-                                  "wait_activation", "wait_for_activation", "query", "reset_after", "reset_now"};
+                                  "wait_activation", "wait_for_activation", "query", "reset_after", "reset_now",
+                                  "rearm"};
 
 namespace {
 using TV = gmlc::concurrency::TriggerVariable;
@@ -323,10 +325,58 @@ void check_history()
     }
 }
 
+// ---- family "re-arm": reset() races with a thread that re-activates as soon as it can.
+// The variable is active and untriggered; T1 resets it (which triggers, then deactivates);
+// T2 spins on activate() until it succeeds — it can only succeed once the reset has made
+// the variable inactive, so the new activation follows the reset: afterwards the variable
+// is active and NOT triggered, and a wait must wait.
+void rearm_resetter(void*)
+{
+    gsim::ev_wait(50);
+    for (int y = gsim::choose(3); y > 0; y--) gsim::yield();
+    S->tv->reset();
+}
+void rearm_activator(void*)
+{
+    gsim::ev_wait(50);
+    int spins = 0;
+    while (!S->tv->activate()) {
+        gsim::yield();
+        if (++spins > 2000) gsim::fail("harness", "re-arm did not succeed");
+    }
+}
+void run_rearm()
+{
+    using namespace std::chrono_literals;
+    if (!S->tv->isActive() && !S->tv->activate()) gsim::fail("harness", "activate");
+    int a = gsim::spawn(rearm_resetter, nullptr);
+    int b = gsim::spawn(rearm_activator, nullptr);
+    gsim::ev_set(50);
+    gsim::join(a);
+    gsim::join(b);
+    gsim::faults_off();
+    bool act = S->tv->isActive(), trig = S->tv->isTriggered();
+    if (!act)
+        gsim::fail("inactive_after_activate", "activate() returned true after the reset, yet the "
+                   "variable is inactive");
+    if (trig)
+        gsim::fail("triggered_without_trigger", "the variable was re-activated after reset() and "
+                   "nobody triggered it since, but isTriggered() is true (the next wait() will not wait)");
+    if (S->tv->wait_for(1ms))
+        gsim::fail("woke_without_event", "wait_for on a freshly re-activated variable returned true "
+                   "although no trigger() or reset() followed the activation");
+    gsim::probe("trigger.rearm_race_checked");
+}
+
 void gen_epoch()
 {
     int n = 3 + gsim::gen_int(4);
     gsim::prog_reset(n);
+    if (gsim::gen_int(8) == 0) {
+        gsim::prog_reset(1);
+        gsim::prog_add(0, {OP_REARM, 0, 0, 0});
+        return;
+    }
     if (gsim::gen_int(4) == 0) {
         // family "reset wakes the waiters": activator, resetter, waiters, no trigger_until
         gsim::prog_add(0, {OP_ACTIVATE, gsim::gen_int(3), 0, 0});
@@ -375,6 +425,12 @@ void run()
     gsim::enable_fault(gsim::F_TIME_JUMP, gsim::knob("time_jump", 0, 2) * 15);
     gsim::enable_fault(gsim::F_STALE_READ, gsim::knob("stale", 0, 1) * 200);
     st.tv = new TV(st.ctor_active);
+    if (gsim::prog_nthreads() == 1 && gsim::prog_len(0) >= 1 && gsim::prog_op(0, 0).code == OP_REARM) {
+        run_rearm();
+        delete st.tv;
+        S = nullptr;
+        return;
+    }
     for (int ep = 0; ep < epochs; ep++) {
         validate();
         wl::run_program(body);
